@@ -184,6 +184,8 @@ type AtomDef struct {
 	Edge func(m *Matcher, p Pred, holds bool) bool
 	// Exec is called for every call instruction; the atom holds after it.
 	Exec func(m *Matcher, call ssa.CallInstruction) bool
+	// ExecAny is called for every non-call instruction; the atom holds after it.
+	ExecAny func(m *Matcher, in ssa.Instruction) bool
 }
 
 // Derivation: Head holds wherever all of Body hold.
@@ -288,6 +290,12 @@ func (f *Flow) prepare(fn *ssa.Function) {
 			if call, ok := in.(ssa.CallInstruction); ok {
 				for _, ad := range f.RS.Atoms {
 					if ad.Exec != nil && ad.Exec(m, call) {
+						f.exec[in] = append(f.exec[in], ad.Name)
+					}
+				}
+			} else {
+				for _, ad := range f.RS.Atoms {
+					if ad.ExecAny != nil && ad.ExecAny(m, in) {
 						f.exec[in] = append(f.exec[in], ad.Name)
 					}
 				}
